@@ -2559,8 +2559,10 @@ bool IGXMLScanner::scanStartTagNS(bool& gotData)
         }
         fElemStack.setCurrentScope(currentScope);
 
-        // Set element next state
-        if (elemDepth >= fElemStateSize) {
+        // Set element next state. (The elements above this one need not have
+        // come this way - those in a DTD grammar don't - so one doubling may
+        // not be enough.)
+        while (elemDepth >= fElemStateSize) {
             resizeElemState();
         }
 
